@@ -27,15 +27,15 @@ KEY_POOLS = [
 ]
 
 
-def cfg_text(clients, keys, maxtime, maxstmts, maxopens, maxperm, partial=True, withtx=False, emit=True):
+def cfg_text(clients, keys, maxtime, maxstmts, maxopens, maxperm, partial=True, withtx=False, emit=True, maxtx=2):
     q = lambda xs: "{" + ", ".join('"%s"' % x for x in xs) + "}"
     return (
         "CONSTANTS\n  Clients = %s\n  Keys = %s\n  Cols = {\"a\", \"b\"}\n  MaxTime = %d\n  MaxStmts = %d\n"
-        "  MaxOpens = %d\n  MaxPerm = %d\n  Partial = %s\n  WithTx = %s\n"
+        "  MaxOpens = %d\n  MaxPerm = %d\n  Partial = %s\n  WithTx = %s\n  MaxTx = %d\n"
         "SPECIFICATION Spec\nINVARIANTS TypeOK C03_NothingLost C01_ViewIsClosure C05_NoLeak DistinctTimes%s\n"
         "PROPERTY C11_Immutable\nCHECK_DEADLOCK FALSE\n"
         % (q(clients), q(keys), maxtime, maxstmts, maxopens, maxperm,
-           "TRUE" if partial else "FALSE", "TRUE" if withtx else "FALSE", " Emit" if emit else ""))
+           "TRUE" if partial else "FALSE", "TRUE" if withtx else "FALSE", maxtx, " Emit" if emit else ""))
 
 
 def canon(beh):
